@@ -13,11 +13,11 @@ open Amgcl Amgcl.Solver
 /-- the `mutable` members `H, s, cs, sn` and the vectors `v[0..M]`, `z[0..M-1]` (fgmres.hpp:278-283) -/
 structure Work (K : Type) where
   h : Hess K
-  v : Nat → Vec K
-  z : Nat → Vec K
+  v : FArr (Vec K)
+  z : FArr (Vec K)
 
 def Work.fresh {K : Type} [Zero K] (n : Nat) : Work K :=
-  ⟨Hess.fresh, fun _ => Array.replicate n 0, fun _ => Array.replicate n 0⟩
+  ⟨Hess.fresh, .const (Array.replicate n 0), .const (Array.replicate n 0)⟩
 
 /-- `fgmres::params`: the common fields + `M` -/
 structure Params (K : Type) extends Amgcl.Solver.Params K where
@@ -72,7 +72,7 @@ def cycle (prm : Params K) (ip : Vec K → Vec K → K) (sqrt : K → K) (A : CR
   let t := doWhile (cont prm.maxiter prm.M epsT) (step ip sqrt A P) prm.M t0
   let s := backSubst t.j t.w.h.H t.w.h.s
   { iter := t.iter, normR := st.normR,
-    x := linComb (combList t.j s t.w.z) 1 st.x,           -- backend::lin_comb(j, s, z, one, x);
+    x := linComb (combList t.j s.get t.w.z.get) 1 st.x,           -- backend::lin_comb(j, s, z, one, x);
     w := { t.w with h := { t.w.h with s := s } } }
 
 def outer (prm : Params K) (ip : Vec K → Vec K → K) (sqrt : K → K) (A : CRS K) (P : Vec K → Vec K) (f : Vec K)
